@@ -118,7 +118,7 @@ structure ColVol where
   levelHist : List Nat          -- repetition / definition level histograms (cleared in place)
   pageLevelHists : List Nat
   bufAllocated : Bool           -- the column buffer's backing array exists (capacity is kept on purpose)
-  bloomLength : Nat             -- NOT reset: overwritten by writeRowGroup before it is encoded
+  bloomLength : Nat             -- live chunk's BloomFilterLength: only overwritten when a filter is written
   sizeStats : List Nat          -- NOT reset: overwritten by writeRowGroup (writer.go 1578)
 deriving DecidableEq
 
@@ -165,10 +165,11 @@ def colResetAsIs (c : Col) : Col :=
       levelHist := v.levelHist.map (fun _ => 0)   -- clear(c.repetitionLevelHistogram) keeps the length
       pageLevelHists := [] } }
 
-/-- MIRROR of the repaired `(*ColumnWriter).reset`: additionally `c.plainColumnBuffer.Reset()` -/
+/-- MIRROR of the repaired `(*ColumnWriter).reset`: additionally `c.plainColumnBuffer.Reset()`
+(F24) and `c.columnChunk.MetaData.BloomFilterLength = 0` (F26) -/
 def colResetFixed (c : Col) : Col :=
   let c' := colResetAsIs c
-  { c' with vol := { c'.vol with plainBuffered := [] } }
+  { c' with vol := { c'.vol with plainBuffered := [], bloomLength := 0 } }
 
 /-! ## per-file state -/
 
@@ -385,10 +386,10 @@ def run (M : Mirror) (cfg : Cfg) (ops : List Op) : Writer := ops.foldl (step M) 
 
 /-! ## observation: everything the next file's bytes depend on -/
 
-/-- the two accumulators that writeRowGroup overwrites before encoding them are masked; so is the
-allocation flag when no code path reads it (`ra = false`) -/
+/-- the size statistics, which writeRowGroup overwrites before encoding them (writer.go 1578), are
+masked; so is the allocation flag when no code path reads it (`ra = false`) -/
 def ColVol.observed (ra : Bool) (v : ColVol) : ColVol :=
-  { v with bloomLength := 0, sizeStats := [], bufAllocated := ra && v.bufAllocated }
+  { v with sizeStats := [], bufAllocated := ra && v.bufAllocated }
 
 structure ColObs where
   path : List Str            -- what c.columnPath reads now (through the heap)
@@ -574,10 +575,10 @@ theorem observed_resetFixed (c : Col) (h : ColOK c) :
 
 /-- after the as-is column reset the same holds if the plain fallback buffer happens to be empty -/
 theorem observed_resetAsIs (c : Col) (h : ColOK c) (hp : c.vol.plainBuffered = [])
-    (ha : c.vol.bufAllocated = false) :
+    (ha : c.vol.bufAllocated = false) (hb : c.vol.bloomLength = 0) :
     (colResetAsIs c).vol.observed true = (ColVol.fresh c.st).observed true := by
   have := observed_resetFixed c h
-  simpa [colResetFixed, ColVol.observed, colResetAsIs, hp, ha, ColVol.fresh] using this
+  simpa [colResetFixed, ColVol.observed, colResetAsIs, hp, ha, hb, ColVol.fresh] using this
 
 /-- the observation of a writer whose columns all look fresh, as a function of the stable part -/
 def freshObs (ra : Bool) (st : Stable) (md : List KV) : Obs :=
@@ -965,9 +966,9 @@ theorem sortKV_sorted (l : List KV) : (sortKV l).Pairwise (fun x y => leKV x y =
 /-- MIRROR of `newWriter`'s metadata list: the configured map in some iteration order, sorted -/
 def cfgMetadata (mapOrder : List KV) : List KV := sortKV mapOrder
 
-/-- the current mirror: the library as it stands (`asIs` until the `fix:` commits for F10 and F24, then `fixed`) -/
-def current : Mirror := asIs
+/-- the current mirror: the library as it stands: `fixed` since the `fix:` commits for F10, F24 and F25 (it was `asIs` before) -/
+def current : Mirror := fixed
 /-- printable name of `current` (for the driver) -/
-def currentName : String := "asis"
+def currentName : String := "fixed"
 
 end PqModel.Reset
